@@ -447,7 +447,11 @@ where
 
     // reserve space for: parent info, and
     // 8 bytes for SlicePayload::data length
-    let parent_encoded_len = wincode::serialized_size(&parent)
+    // a slice produced without parent info can still get one assigned afterwards
+    // (`apply_parent_ready` during optimistic block production),
+    // so always reserve the space an encoded parent takes
+    let largest_parent: Option<BlockId> = Some((Slot::genesis(), GENESIS_BLOCK_HASH));
+    let parent_encoded_len = wincode::serialized_size(&largest_parent)
         .expect("computing serialized size of parent should not fail")
         as usize;
     let buffer_space = MAX_DATA_PER_SLICE - parent_encoded_len - 8;
@@ -625,6 +629,41 @@ mod tests {
         let max_len = MAX_DATA_PER_SLICE - parent_len - 8;
         assert!(payload.data.len() <= max_len);
         assert!(payload.data.len() + MAX_TRANSACTION_SIZE + 8 > max_len);
+    }
+
+    #[tokio::test]
+    async fn full_slice_still_fits_after_parent_assigned() {
+        let txs_receiver: UdpNetwork<Transaction, Transaction> = UdpNetwork::new_with_any_port();
+        let addr = localhost_ip_sockaddr(txs_receiver.port());
+        let txs_sender: UdpNetwork<Transaction, Transaction> = UdpNetwork::new_with_any_port();
+
+        // these sizes fill a slice without parent info to within 20 bytes of its budget
+        tokio::spawn(async move {
+            let mut sizes = vec![MAX_TRANSACTION_SIZE; 60];
+            sizes.extend([500, 495, MAX_TRANSACTION_SIZE]);
+            for (i, len) in sizes.into_iter().enumerate() {
+                let msg = Transaction(vec![i as u8; len]);
+                txs_sender.send(&msg, addr).await.unwrap();
+            }
+        });
+        let (mut payload, _) =
+            produce_slice_payload(&txs_receiver, None, Duration::from_secs(100)).await;
+
+        // ParentReady names a different parent than the one built on optimistically
+        let slot = Slot::windows().nth(10).unwrap();
+        let old_parent = random_block_id(slot.prev());
+        let new_parent = random_block_id(slot.prev().prev());
+        apply_parent_ready(&mut payload, Ok(new_parent.clone()), &old_parent);
+        assert_eq!(payload.parent, Some(new_parent));
+
+        let header = SliceHeader {
+            slot,
+            slice_index: SliceIndex::new_for_test(1),
+            is_last: false,
+        };
+        let slice = Slice::from_parts(header, payload);
+        let sk = signature::SecretKey::new(&mut rand::rng());
+        assert!(RegularShredder::default().shred(&slice, &sk).is_ok());
     }
 
     #[tokio::test]
